@@ -96,10 +96,22 @@ func ardop.(*broadcaster).Listen(b) (r)
 # synchronously before the next frame is taken - so PTT requests reach the controller in
 # order.  The only thing it may start asynchronously is the disconnect after a full-buffer
 # timeout.  (Index/assertion safety of this body is not part of this contract.)
+ghost var gFrameNo int
+ghost var gIsARQ bool
+ghost var gConnAtFrame bool
+ghost var gHandedAt int
+
 func ardop.(*TNC).runControlLoop$1() ()
   props C14
   nosafety
   at go requires handlers-run-in-the-loop: streq($callee, "ardop.(*TNC).Disconnect")
+  # an ARQ data frame that arrives while the connection is up always reaches the hand-over to
+  # the reader (the second select); frames are discarded only while not connected
+  call ardop.(dFrame).ARQFrame set gFrameNo := gFrameNo + 1
+  call ardop.(dFrame).ARQFrame set gIsARQ := $r0
+  call ardop.(dFrame).ARQFrame set gConnAtFrame := tnc.connected
+  at select#1 set gHandedAt := gFrameNo
+  loop 0 invariant arq-data-not-dropped-while-connected: gIsARQ && gConnAtFrame ==> gHandedAt == gFrameNo
 
 func ardop.(*tncConn).Write(conn, p) (n, err)
   props C14
